@@ -267,6 +267,12 @@ func (li *lenInterp) stmt(st ast.Stmt, s lenState) []lenState {
 				break
 			}
 			lhs := canon(l)
+			switch unparen(l).(type) {
+			case *ast.Ident, *ast.SelectorExpr:
+				if a := li.atoms(lhs); a != "" {
+					lhs = a
+				}
+			}
 			if len(v.Lhs) != len(v.Rhs) {
 				// tuple assignment from a call: results unknown
 				delete(out.v, lhs)
@@ -413,6 +419,25 @@ func (li *lenInterp) stmt(st ast.Stmt, s lenState) []lenState {
 					}
 				}
 			}
+		}
+		return []lenState{out}
+	case *ast.IncDecStmt:
+		out := s.clone()
+		name := canon(v.X)
+		switch unparen(v.X).(type) {
+		case *ast.Ident, *ast.SelectorExpr:
+			if a := li.atoms(name); a != "" {
+				name = a
+			}
+		}
+		if old, ok := li.evalInt(v.X, s); ok {
+			if v.Tok == token.INC {
+				out.v[name] = old + 1
+			} else {
+				out.v[name] = old - 1
+			}
+		} else {
+			delete(out.v, name)
 		}
 		return []lenState{out}
 	case *ast.ForStmt, *ast.SwitchStmt, *ast.TypeSwitchStmt:
